@@ -145,13 +145,7 @@ fn stmt(rng: &mut Rng, b: &mut Builder, cx: &mut Ctx, depth: u32) {
             match rng.below(3) {
                 0 => b.w(0xF021),
                 1 => b.w(0xF026),
-                _ => {
-                    if cx.minimal {
-                        b.w(0xF027)
-                    } else {
-                        b.w(0xF026)
-                    }
-                }
+                _ => b.w(0xF027),
             }
         }
         7 => {
@@ -372,5 +366,5 @@ pub fn gen_random_image(rng: &mut Rng) -> Prog {
     for _ in 0..rng.below(5) {
         inp.push(rng.next() as u8);
     }
-    Prog { orig, words, inp, stack: rng.chance(1, 2), minimal: true, kind: "random-image" }
+    Prog { orig, words, inp, stack: rng.chance(1, 2), minimal: rng.chance(3, 4), kind: "random-image" }
 }
